@@ -207,3 +207,17 @@ CHECKS["C16"] = dict(
           "structured random queries over the function vocabulary; 27 insert payloads over the Go value universe (nil/empty/ill-typed values, empty arrays, nil/ill-typed "
           "dims, 200 dims, raw truncated/garbage byte maps) and 11 legitimate function-using table definitions fed 35 hostile dim/value combinations each. "
           "non-trivial: everything but the 12 valid statements; distinct = distinct input"))
+
+_CLU_ASSUME = _DB_ASSUME[:4] + [
+    "in-process cluster wired as server/server.go wires it (DBOpts.Follow -> leader.Follow, RegisterRemoteQueryHandler -> leader.RegisterQueryHandler), no sockets: gRPC transport is C20's subject",
+    "virtual time: every node's clock is advanced to the newest accepted timestamp through the verif hook before querying (a passthrough leader's clock never moves by itself)",
+    "caught-up states only: the harness waits until every follower has processed the number of entries the leader's routing function (verif hook) assigns to its partition",
+    "murmur3 is an oracle: the real partitionFor result of each point is used to split the points per follower"]
+CHECKS["C10"] = dict(
+    stages=[dict(sub="cluq", quick=16, thorough=192, shrink=["points", "queries"], parallel=16, shards=16)],
+    finding_key=db_finding_key, assumptions=_CLU_ASSUME, trusted=_DB_TRUSTED + ["VerifPartitionFor (verif hook) exposes the leader's routing function"],
+    what_fails="a cluster of caught-up followers answered a query differently from the reference (= a standalone database), or a follower does not hold exactly the points routed to its partition",
+    rule=("clusters of P in 1..4 partitions x 1-2 followers per partition, partitionBy in {none, [d1], [d2], [d1,d2], [d3,d9]} (also keys outside the table's group by), generated "
+          "table/points as in C01 inserted through the leader; 7 queries per cluster on the leader (SELECT *, grouped/ranged/derived/WHERE/LIMIT: pushdown and non-pushdown plans) "
+          "compared with the reference over all points, and SELECT * on every follower compared with the reference over the points routed to its partition. "
+          "non-trivial: P >= 2 / follower holds >= 1 point"))
